@@ -886,10 +886,12 @@ def widen_state(old, new, thresholds, level=0):
                 revn.setdefault(a, key)
         for (x, y), c in list(new.facts.items()):
             kx, ky = revn.get(x), revn.get(y)
-            if kx is None or ky is None:
+            if kx is None and ky is None:
                 continue
-            xo = old.env.get(kx) if kx in old.env else old.ghost.get(kx)
-            yo = old.env.get(ky) if ky in old.env else old.ghost.get(ky)
+            # an atom that no cell holds is the same atom at the old head (atoms are immutable)
+            xo = (old.env.get(kx) if kx in old.env else old.ghost.get(kx)) if kx is not None else x
+            yo = (old.env.get(ky) if ky in old.env else old.ghost.get(ky)) if ky is not None else y
+            ky = ky if ky is not None else ("?",)
             if xo is None or yo is None or not (is_int(xo) and is_int(yo)):
                 continue
             co = old.facts.get((xo, yo))
